@@ -237,7 +237,9 @@ func piecesWorker(req N) (resp N) {
 		pieces = append(pieces, p.(string))
 	}
 	stdout := ros.NewBufferFile(nil)
-	ctx, cancel := context.WithTimeout(context.Background(), 5*time.Second)
+	// one context for the whole history: generous, and growing with the number of inputs (a loaded machine must not
+	// turn the end of a long history into "context deadline exceeded")
+	ctx, cancel := context.WithTimeout(context.Background(), 60*time.Second+time.Duration(len(pieces))*100*time.Millisecond)
 	defer cancel()
 	vos := ros.NewVirtualOS(ctx, ros.WithStdout(stdout), ros.WithEnvironment(run.HostEnv()))
 	cfg := risor.NewConfig(risor.WithOS(vos), risor.WithGlobal("hostv", 10))
